@@ -1,6 +1,7 @@
 """W-CORPUS / W-ADV (C07): every callable found one level deep in the importable
 standard library and the installed packages, plus generated adversarial
 sources.  Corpus callables are *never executed*, only retrieved."""
+import builtins
 import functools
 import importlib
 import inspect
@@ -157,6 +158,34 @@ def is_plain_function(obj):
 
 
 UNHASHABLE_MECH = 'unhashable-callable-cannot-key-provenance'
+POSONLY_KW_MECH = 'partial-keyword-names-positional-only-parameter-next-to-varkwargs'
+
+
+def posonly_name_bound_by_keyword(obj):
+    """Mechanism predicate of the open finding: a partial object (at any level of a stack of partials) binds a
+    keyword whose name is that of a positional-only parameter of the callable it wraps, and that callable has
+    **kwargs (Python then delivers the keyword through **kwargs; sigtools' mask treats it as naming the parameter)."""
+    seen = 0
+    while isinstance(obj, functools.partial) and seen < 6:
+        seen += 1
+        try:
+            under = inspect.signature(obj.func)
+        except (ValueError, TypeError):
+            return False
+        ps = list(under.parameters.values())
+        if any(p.kind == p.VAR_KEYWORD for p in ps) and \
+                any(p.kind == p.POSITIONAL_ONLY and p.name in (obj.keywords or {}) for p in ps):
+            return True
+        # the function's own def list (inspect.signature of a partial over a partial already dropped consumed ones)
+        try:
+            code = getattr(getattr(obj.func, '__func__', obj.func), '__code__', None) or \
+                getattr(getattr(obj.func, '__init__', None), '__code__', None) or getattr(getattr(type(obj.func), '__call__', None), '__code__', None)
+            if code is not None and code.co_flags & 0x08 and any(n in (obj.keywords or {}) for n in code.co_varnames[:code.co_posonlyargcount]):
+                return True
+        except Exception:
+            pass
+        obj = obj.func
+    return False
 
 
 def unhashable(obj):
@@ -203,6 +232,10 @@ def check_callable(ctx, dotted, what, obj, sphinx=True, rp=None):
                 elif fabricates_attributes(obj):
                     ctx.violation('C07', 'Totality', FABRICATE_MECH,
                                   'an object that answers every attribute lookup makes retrieval raise', dict(w, retrieval=label, exception=repr(e)[:200]), rp)
+                elif isinstance(e, ValueError) and posonly_name_bound_by_keyword(obj):
+                    ctx.violation('C07', 'Totality', POSONLY_KW_MECH,
+                                  'a partial object binds a keyword named like a positional-only parameter of a callable with **kwargs: retrieval raises ValueError where inspect.signature succeeds',
+                                  dict(w, retrieval=label, exception=repr(e)[:200], inspect=str(i1[1])[:200]), rp)
                 elif isinstance(e, TypeError) and unhashable(obj) and 'unhashable' in str(e):
                     ctx.violation('C07', 'Totality', UNHASHABLE_MECH,
                                   'an unhashable callable cannot be a key of the provenance maps: retrieval raises TypeError',
@@ -429,14 +462,17 @@ def adversarial_objects():
         if src.startswith('from __future__'):
             head, src = src.split('\n', 1)
             head += '\n'
-        try:
-            g = sigs.compile_module(head + ADV_PRELUDE + src, tag='vadv')
-        except SyntaxError:
-            ADV_NOT_COMPILED.append(label)
-            continue
-        for name in ('f', 'f2', 'f3', 'f4', 'f5', 'g'):
-            if name in g and callable(g[name]) or name in g and isinstance(g[name], (staticmethod, classmethod)):
-                out.append(('adv:%s:%s' % (label, name), g[name]))
+        # every source twice: as an imported module (its __builtins__ global is a dict) and as the __main__
+        # module of a script / interactive session (there it is the builtins module itself)
+        for where, globs in (('', None), (':as-main', {'__builtins__': builtins, '__name__': '__main__'})):
+            try:
+                g = sigs.compile_module(head + ADV_PRELUDE + src, globs=globs, tag='vadv')
+            except SyntaxError:
+                ADV_NOT_COMPILED.append(label)
+                break
+            for name in ('f', 'f2', 'f3', 'f4', 'f5', 'g'):
+                if name in g and callable(g[name]) or name in g and isinstance(g[name], (staticmethod, classmethod)):
+                    out.append(('adv:%s:%s%s' % (label, name, where), g[name]))
     # functions without source
     ns = {}
     exec('def nosrc(a, *args, **kwargs):\n    return len(*args, **kwargs)\nnosrc_l = lambda *a, **k: len(*a, **k)', ns)
@@ -448,6 +484,39 @@ def adversarial_objects():
               isinstance, getattr, max, range, zip, map, super, Exception, ValueError('x').with_traceback):
         out.append(('adv:builtin:%s' % fname(b), b))
     return out
+
+
+def build_partial(kind, params, npos, kws, tag=0):
+    if kind == 'function':
+        target = sigs.make_func(params, name='pf%d' % tag)
+    else:
+        first = (('self', PO if sigs.has_kind(params, PO) else PK, None, None),)
+        f = sigs.make_func(first + tuple(params), name='pf%d' % tag)
+        K = type('PK%d' % tag, (object,), {{'method': 'm', 'class': '__init__', 'instance': '__call__'}[kind]: f})
+        target = {'method': lambda: K().m, 'class': lambda: K, 'instance': lambda: K()}[kind]()
+    return functools.partial(target, *([0] * npos), **{k: 1 for k in kws})
+
+
+def run_generated_partials(ctx):
+    """functools.partial objects over generated functions, bound methods, classes and callable instances: every
+    count of bound positionals up to one too many, keyword sets of up to three names in every order (a keyword
+    nobody declares included).  Where the binding is impossible inspect.signature raises; sigtools must too."""
+    rnd = ctx.rng('c07-partials')
+    n = {'quick': 600, 'thorough': 60000}[ctx.tier] // max(1, ctx.nshards)
+    for i in range(n):
+        if ctx.out_of_time('generated partial objects'):
+            break
+        params = sigs.pick_stratified(rnd, ('a', 'b', 'c', 'd'), 4, sigs.STARS2[:1])
+        kind = rnd.choice(('function', 'function', 'method', 'class', 'instance'))
+        names = [p[0] for p in params if p[1] not in (VA, VK)] + ['zq']
+        cap = sigs.positional_capacity(params)
+        for _ in range(3):
+            npos = rnd.randint(0, cap + 1)
+            kws = rnd.sample(names, rnd.randint(0, min(3, len(names))))
+            ctx.count('C07.generated_partials')
+            label = 'gen-partial:%s(%s):%d:%s' % (kind, sigs.render(params), npos, ','.join(kws))
+            check_callable(ctx, label, 'function', build_partial(kind, params, npos, kws, i), sphinx=False,
+                           rp=dict(workload='gen-partial', kind=kind, params=sigs.to_json(params), npos=npos, kws=kws))
 
 
 def run_adversarial(ctx):
@@ -463,6 +532,10 @@ def run_adversarial(ctx):
 
 
 def replay(ctx, rec):
+    if rec.get('workload') == 'gen-partial':
+        obj = build_partial(rec['kind'], sigs.from_json(rec['params']), rec['npos'], rec['kws'])
+        check_callable(ctx, 'gen-partial', 'function', obj, sphinx=False, rp=rec)
+        return
     if rec.get('workload') == 'adversarial':
         for label, obj in adversarial_objects():
             if label == rec['label']:
